@@ -76,11 +76,24 @@ fn funds_and_positions(store: &Store, group: &Pubkey) -> (BTreeMap<Pubkey, u64>,
         if a.group != *group {
             continue;
         }
-        // a position is a slot holding at least one share on either side; slots below that are
-        // "empty" by the program's (and C04/C16's) own definition, and dropping them moves nothing
+        // a position is a slot holding, on either side, at least one share worth at least 0.0001
+        // native units; slots below that are "empty" by the program's own two definitions (fewer
+        // than one share; an amount below the zero-amount threshold, which after a socialised
+        // loss can be several shares) and dropping them moves nothing anybody could withdraw
         let mut v = Vec::new();
         for b in a.lending_account.balances.iter() {
-            if b.active == 0 || (q_w(b.asset_shares) < model::qi(1) && q_w(b.liability_shares) < model::qi(1)) {
+            if b.active == 0 {
+                continue;
+            }
+            let (asv, lsv) = model::bank_of(store, &b.bank_pk)
+                .map(|k| (q_w(k.asset_share_value), q_w(k.liability_share_value)))
+                .unwrap_or((model::qi(1), model::qi(1)));
+            let thr = model::qr(1, 10_000);
+            let sa = q_w(b.asset_shares);
+            let sl = q_w(b.liability_shares);
+            let a_pos = sa >= model::qi(1) && &sa * &asv >= thr;
+            let l_pos = sl >= model::qi(1) && &sl * &lsv >= thr;
+            if !a_pos && !l_pos {
                 continue;
             }
             v.extend_from_slice(b.bank_pk.as_ref());
